@@ -1,11 +1,19 @@
 /-
 C12 — property theorems: fields and forests keep their structural invariants.
+
+Notation: `dilF g` / `eroF g` are the closed-neighbourhood maximum / minimum on
+total fields `Nat → Rat`; the list-level operators of the model (`slowDilate`,
+`erode`, …: what the driver runs against nipy) are shown equal to them.
+A parent array is a function `p : Nat → Nat` on the vertices `0..V-1`.
 -/
 import NipyVerif.Lemmas.C12
 
 namespace NipyVerif.C12
 
-/-- the running maximum of `_graph.pyx` is the greatest element it has seen -/
+/-! ## Morphology -/
+
+/-- Clause "dilation computes exactly the neighbourhood maximum" (compiled running
+    maximum of `_graph.pyx`): the result is an element seen and dominates all of them. -/
 theorem foldMax_isGreatest (a : Rat) (l : List Rat) :
     foldMax a l ∈ a :: l ∧ ∀ x ∈ a :: l, x ≤ foldMax a l := by
   refine ⟨?_, ?_⟩
@@ -16,5 +24,318 @@ theorem foldMax_isGreatest (a : Rat) (l : List Rat) :
     rcases List.mem_cons.1 hx with rfl | hx
     · exact foldMax_ge_init _ l
     · exact foldMax_ge_mem a l x hx
+
+/-- Clause "dilation = neighbourhood maximum", generic sparse-row path, any number of
+    iterations: the list the model returns is the `n`-fold closed-neighbourhood maximum. -/
+theorem dilation_is_closed_nbhd_max (g : Graph) (n : Nat) (col : List Rat) (hl : col.length = g.V) :
+    slowDilate g n col = some ((List.range g.V).map ((dilF g)^[n] (at_ col))) :=
+  slowDilate_eq g n col hl
+
+/-- Clause "dilation = neighbourhood maximum", compiled fast path (`_graph.dilation` over the
+    `compact_neighb` slices, with the `E == 0` shortcut), any number of iterations. -/
+theorem dilation_fast_is_closed_nbhd_max (g : Graph) (hv : g.Valid) (n : Nat) (col : List Rat)
+    (hl : col.length = g.V) :
+    fastDilate g n col = (List.range g.V).map ((dilF g)^[n] (at_ col)) :=
+  fastDilate_eq g hv n col hl
+
+/-- Clause "the compiled fast path and the generic path give identical results". -/
+theorem dilation_paths_agree (g : Graph) (hv : g.Valid) (n : Nat) (col : List Rat)
+    (hl : col.length = g.V) :
+    slowDilate g n col = some (fastDilate g n col) := by
+  rw [slowDilate_eq g n col hl, fastDilate_eq g hv n col hl]
+
+/-- `compact_neighb`: the slice `neighb[idx[i]:idx[i+1]]` lists exactly the out-neighbours of `i`. -/
+theorem compact_neighb_slices (g : Graph) (hv : g.Valid) (i j : Nat) :
+    j ∈ fastRow g i ↔ g.adj i j = true :=
+  mem_fastRow g hv i j
+
+/-- `dilF g f i` is attained in the closed neighbourhood of `i` and dominates it. -/
+theorem dilF_isGreatest (g : Graph) (f : Nat → Rat) (i : Nat) (hi : i < g.V) :
+    (∃ j ∈ closedRow g i, dilF g f i = f j) ∧ ∀ j ∈ closedRow g i, f j ≤ dilF g f i := by
+  have hmem : i ∈ closedRow g i := mem_closedRow.2 ⟨hi, Or.inl rfl⟩
+  refine ⟨?_, fun j hj => foldMax_ge_mem _ _ _ (List.mem_map_of_mem hj)⟩
+  rcases foldMax_mem (f i) ((closedRow g i).map f) with h | h
+  · exact ⟨i, hmem, h⟩
+  · obtain ⟨j, hj, hfj⟩ := List.mem_map.1 h
+    exact ⟨j, hj, hfj.symm⟩
+
+/-- Clause "erosion = neighbourhood minimum" (closed neighbourhood: the corrected
+    `Field.erosion`), any number of iterations; never an error, isolated vertices included. -/
+theorem erosion_is_closed_nbhd_min (g : Graph) (n : Nat) (col : List Rat) (hl : col.length = g.V) :
+    erode g n col = some ((List.range g.V).map ((eroF g)^[n] (at_ col))) :=
+  erode_eq g n col hl
+
+/-- `eroF g f i` is attained in the closed neighbourhood of `i` and is below all of it. -/
+theorem eroF_isLeast (g : Graph) (f : Nat → Rat) (i : Nat) (hi : i < g.V) :
+    (∃ j ∈ closedRow g i, eroF g f i = f j) ∧ ∀ j ∈ closedRow g i, eroF g f i ≤ f j := by
+  have hmem : i ∈ closedRow g i := mem_closedRow.2 ⟨hi, Or.inl rfl⟩
+  refine ⟨?_, fun j hj => foldMin_le_mem _ _ _ (List.mem_map_of_mem hj)⟩
+  rcases foldMin_mem (f i) ((closedRow g i).map f) with h | h
+  · exact ⟨i, hmem, h⟩
+  · obtain ⟨j, hj, hfj⟩ := List.mem_map.1 h
+    exact ⟨j, hj, hfj.symm⟩
+
+/-- Clause "opening never increases the field" (symmetric graph, every `nbiter`). -/
+theorem opening_le (g : Graph) (hv : g.Valid) (hs : g.Symm) (n : Nat) (f : Nat → Rat) :
+    (dilF g)^[n] ((eroF g)^[n] f) ≤ f :=
+  (gc_iterate (gc_dil_ero g hv hs) n).l_u_le f
+
+/-- Clause "closing never decreases the field" (symmetric graph, every `nbiter`). -/
+theorem le_closing (g : Graph) (hv : g.Valid) (hs : g.Symm) (n : Nat) (f : Nat → Rat) :
+    f ≤ (eroF g)^[n] ((dilF g)^[n] f) :=
+  (gc_iterate (gc_dil_ero g hv hs) n).le_u_l f
+
+/-- Clause "opening is idempotent". -/
+theorem opening_idem (g : Graph) (hv : g.Valid) (hs : g.Symm) (n : Nat) (f : Nat → Rat) :
+    (dilF g)^[n] ((eroF g)^[n] ((dilF g)^[n] ((eroF g)^[n] f))) = (dilF g)^[n] ((eroF g)^[n] f) :=
+  (gc_iterate (gc_dil_ero g hv hs) n).l_u_l_eq_l ((eroF g)^[n] f)
+
+/-- Clause "closing is idempotent". -/
+theorem closing_idem (g : Graph) (hv : g.Valid) (hs : g.Symm) (n : Nat) (f : Nat → Rat) :
+    (eroF g)^[n] ((dilF g)^[n] ((eroF g)^[n] ((dilF g)^[n] f))) = (eroF g)^[n] ((dilF g)^[n] f) :=
+  (gc_iterate (gc_dil_ero g hv hs) n).u_l_u_eq_u ((dilF g)^[n] f)
+
+/-- List-level form of `opening_le` for the model of `Field.opening` the driver runs
+    (erosion, then the compiled dilation): a result exists, no error, and it is pointwise
+    below the input column. -/
+theorem opening_le_list (g : Graph) (hv : g.Valid) (hs : g.Symm) (n : Nat) (col : List Rat)
+    (hl : col.length = g.V) :
+    ∃ out, opening g n col = some out ∧ out.length = g.V ∧
+      ∀ i < g.V, at_ out i ≤ at_ col i := by
+  refine ⟨_, by rw [opening, erode_eq g n col hl, Option.map_some, fastDilate_eq g hv n _ (by simp)],
+    by simp, ?_⟩
+  intro i hi
+  have hc := iterate_congr (V := g.V) (op := dilF g) (fun _ _ H _ hi => dilF_congr H hi) n
+    (at_ ((List.range g.V).map ((eroF g)^[n] (at_ col)))) ((eroF g)^[n] (at_ col))
+    (fun j hj => at_map_range _ hj) i hi
+  rw [at_map_range _ hi, hc]
+  exact opening_le g hv hs n (at_ col) i
+
+/-- The formula of the *unpatched* `Field.erosion` (minimum over the neighbours without the
+    vertex itself) violates the clause: on the triangle, field (4,1,4) opens to (4,4,4),
+    and a vertex without neighbour makes it fail. -/
+theorem open_nbhd_erosion_breaks_opening :
+    let tri : Graph := ⟨3, [⟨0, 1, 1⟩, ⟨1, 0, 1⟩, ⟨1, 2, 1⟩, ⟨2, 1, 1⟩, ⟨0, 2, 1⟩, ⟨2, 0, 1⟩]⟩
+    (erodeOpen tri 1 [4, 1, 4]).bind (slowDilate tri 1) = some [4, 4, 4] ∧
+      (erode tri 1 [4, 1, 4]).bind (slowDilate tri 1) = some [1, 1, 1] ∧
+      erodeOpen ⟨2, []⟩ 1 [1, 2] = none := by
+  decide +kernel
+
+/-! ## Watershed -/
+
+/-- Steepest ascent (`highest_neighbor`, corrected to read the reference column): the chosen
+    vertex lies in the closed neighbourhood and carries its maximum, so the ascent never
+    descends. -/
+theorem highestNeighbor_spec (g : Graph) (col : List Rat) (i : Nat) (hi : i < g.V) :
+    highestNeighbor g col i ∈ closedRow g i ∧
+      ∀ j ∈ closedRow g i, at_ col j ≤ at_ col (highestNeighbor g col i) := by
+  have hmem : i ∈ closedRow g i := mem_closedRow.2 ⟨hi, Or.inl rfl⟩
+  unfold highestNeighbor
+  cases hrow : closedRow g i with
+  | nil => rw [hrow] at hmem; cases hmem
+  | cons a r =>
+    simp only [argmaxRow, Option.getD_some]
+    obtain ⟨h1, h2, h3⟩ := argmax_fold_spec (at_ col) r a
+    refine ⟨h1, ?_⟩
+    intro j hj
+    rcases List.mem_cons.1 hj with rfl | hj
+    · exact h2
+    · exact h3 j hj
+
+/-- Clause "each basin has a maximum" (partial: uniqueness of the maximum inside a basin and
+    the numbering of basins are validated by correspondence and oracle): the vertex a basin
+    is rooted at — a fixed point of steepest ascent — dominates its whole closed neighbourhood. -/
+theorem watershed_root_is_local_maximum_partial (g : Graph) (col : List Rat) (r : Nat) (hr : r < g.V)
+    (hfix : highestNeighbor g col r = r) : ∀ j ∈ closedRow g r, at_ col j ≤ at_ col r := by
+  have := (highestNeighbor_spec g col r hr).2
+  rwa [hfix] at this
+
+/-- Clause "every above-threshold vertex is labelled" for `custom_watershed`: the label
+    written back is `-1` exactly below the threshold. -/
+theorem watershed_labels_exactly_above_threshold (g : Graph) (col : List Rat) (th : Rat)
+    (v : Nat) (hv : v < g.V) :
+    (watershed g col th).2.getD v 0 = -1 ↔ at_ col v < th := by
+  simp only [watershed, List.getD_eq_getElem?_getD, List.getElem?_map, List.getElem?_range hv,
+    Option.map_some, Option.getD_some]
+  by_cases h : th ≤ at_ col v
+  · simp only [h, decide_true, if_true]
+    constructor
+    · intro h'; omega
+    · intro h'; exact absurd h (not_le.2 h')
+  · simp only [h, decide_false, Bool.false_eq_true, if_false, true_iff]
+    exact not_le.1 h
+
+/-! ## Diffusion -/
+
+/-- Clause "diffusion applies the weighted adjacency once per iteration". -/
+theorem diffusion_applies_adjacency_once_per_iteration (g : Graph) (n : Nat) (col : List Rat) :
+    diffuse g (n + 1) col = applyAdj g (diffuse g n col) := by
+  simp only [diffuse, iter_eq_iterate, Function.iterate_succ_apply']
+
+/-! ## Forests -/
+
+/-- every parent is a vertex -/
+def InRange (V : Nat) (p : Nat → Nat) : Prop := ∀ v < V, p v < V
+
+/-- Clause "a forest built from a parent array has no cycles": `Forest.check` accepts
+    exactly the parent arrays in which every vertex reaches a root within `V` parent steps. -/
+theorem forest_check_iff_acyclic (V : Nat) (p : Nat → Nat) (hr : InRange V p) :
+    check V p = true ↔ ∀ v < V, ∃ k ≤ V, p (p^[k] v) = p^[k] v := by
+  unfold check
+  by_cases h1 : V = 1
+  · subst h1
+    simp only [if_true, true_iff]
+    intro v hv
+    have hv0 : v = 0 := by omega
+    subst hv0
+    exact ⟨0, by omega, by have := hr 0 (by omega); simp; omega⟩
+  · simp only [h1, if_false, List.all_eq_true, List.mem_range]
+    constructor
+    · intro H v hv
+      obtain ⟨k, _, hroot, _, hle⟩ := (walk_true_iff V p v (V + 2) v 0 (by omega)).1 (H v hv)
+      exact ⟨k, by omega, hroot⟩
+    · intro H v hv
+      rw [walk_true_iff V p v (V + 2) v 0 (by omega)]
+      have hex : ∃ k, p (p^[k] v) = p^[k] v := let ⟨k, _, h⟩ := H v hv; ⟨k, h⟩
+      classical
+      let k := Nat.find hex
+      have hk : p (p^[k] v) = p^[k] v := Nat.find_spec hex
+      have hmin : ∀ j < k, p (p^[j] v) ≠ p^[j] v := fun j hj => Nat.find_min hex hj
+      have hkV : k ≤ V := by
+        obtain ⟨k', hk', h'⟩ := H v hv
+        exact le_trans (Nat.find_min' hex h') hk'
+      refine ⟨k, by omega, hk, fun j hj => ⟨hmin j hj, fun hper => ?_⟩, by omega⟩
+      have hmod := iterate_mod_of_periodic hper k
+      have hlt : k % (j + 1) < k := lt_of_lt_of_le (Nat.mod_lt _ (Nat.succ_pos _)) (by omega)
+      apply hmin _ hlt
+      rw [← hmod]; exact hk
+
+/-- No cycles in an accepted forest: a vertex that comes back to itself along parent links
+    is a root (the only cycles are the self-loops that mark roots). -/
+theorem forest_no_cycle (V : Nat) (p : Nat → Nat) (hr : InRange V p) (hc : check V p = true)
+    (v : Nat) (hv : v < V) (k : Nat) (hk : 0 < k) (hper : p^[k] v = v) : p v = v := by
+  obtain ⟨m, _, hroot⟩ := (forest_check_iff_acyclic V p hr).1 hc v hv
+  -- the root reached from v is reached again after any multiple of the period, hence is v
+  have hfix : ∀ t, p^[t] (p^[m] v) = p^[m] v := fun t => Function.iterate_fixed hroot t
+  have h1 : p^[m * k] v = v := by
+    rw [Nat.mul_comm, Function.iterate_mul]; exact Function.iterate_fixed hper m
+  have hle : m ≤ m * k := Nat.le_mul_of_pos_right m hk
+  have h2 : p^[m * k] v = p^[m] v := by
+    have : m * k = (m * k - m) + m := by omega
+    rw [this, Function.iterate_add_apply]; exact hfix _
+  have : p^[m] v = v := by rw [← h2, h1]
+  rw [this] at hroot; exact hroot
+
+/-- Clause "parent/children queries are mutually consistent". -/
+theorem children_parents_consistent (V : Nat) (p : Nat → Nat) (v c : Nat) :
+    c ∈ children V p v ↔ c < V ∧ p c = v ∧ c ≠ v := by
+  simp [children, List.mem_filter]
+
+/-- Clause "leaf/children consistent": `isleaf` marks exactly the nodes without children. -/
+theorem isLeaf_iff_no_children (V : Nat) (p : Nat → Nat) (v : Nat) :
+    isLeaf V p v = true ↔ children V p v = [] := by
+  constructor
+  · intro h
+    rw [List.eq_nil_iff_forall_not_mem]
+    intro c hc
+    obtain ⟨hcV, hpc, hcv⟩ := (children_parents_consistent V p v c).1 hc
+    have hany : (List.range V).any (fun i => p i != i && p i == v) = true := by
+      simp only [List.any_eq_true, List.mem_range, Bool.and_eq_true, bne_iff_ne, beq_iff_eq]
+      exact ⟨c, hcV, by rw [hpc]; exact fun h => hcv h.symm, hpc⟩
+    simp [isLeaf, hany] at h
+  · intro h
+    by_contra hne
+    have hany : (List.range V).any (fun i => p i != i && p i == v) = true := by
+      simpa [isLeaf] using hne
+    simp only [List.any_eq_true, List.mem_range, Bool.and_eq_true, bne_iff_ne, beq_iff_eq] at hany
+    obtain ⟨i, hi, hne', hpi⟩ := hany
+    have hmem : i ∈ children V p v :=
+      (children_parents_consistent V p v i).2 ⟨hi, hpi, fun h => hne' (by rw [hpi, h])⟩
+    rw [h] at hmem; cases hmem
+
+/-- Clause "root/parent consistent": `isroot` marks exactly the fixed points of `parents`;
+    every child has its parent as a non-leaf. -/
+theorem isRoot_iff_and_parent_not_leaf (V : Nat) (p : Nat → Nat) (v : Nat) (hv : v < V) :
+    (isRoot p v = true ↔ p v = v) ∧ (p v ≠ v → isLeaf V p (p v) = false) := by
+  refine ⟨by simp [isRoot], fun h => ?_⟩
+  simp only [isLeaf, Bool.not_eq_false', List.any_eq_true, List.mem_range, Bool.and_eq_true,
+    bne_iff_ne, beq_iff_eq]
+  exact ⟨v, hv, h, rfl⟩
+
+/-- Clause "depth increases strictly from leaves to roots": a depth array that a full sweep
+    of `depth_from_leaves` leaves unchanged (what the corrected loop returns when it stops)
+    is strictly larger at every parent than at the child. -/
+theorem depth_strict (V : Nat) (p : Nat → Nat) (hr : InRange V p) (d : List Int)
+    (hfix : sweepL V p d = d) (i : Nat) (hi : i < V) (hne : p i ≠ i) :
+    lget d i < lget d (p i) := by
+  have hpt : sweep V p (lget d) = lget d := by
+    funext j
+    by_cases hj : j < V
+    · have h1 : (sweepL V p d).getD j 0 = sweep V p (lget d) j := by
+        simp [sweepL, List.getD_eq_getElem?_getD, hj]
+      rw [← h1, hfix]; rfl
+    · exact foldl_sweepStep_outside V p hr _ (fun i hi => List.mem_range.1 hi) _ j (by omega)
+  have hstep := foldl_sweepStep_fixed p (List.range V) (lget d) hpt i (List.mem_range.2 hi)
+  have hval := congrFun hstep (p i)
+  simp only [sweepStep, hne, ne_eq, not_false_eq_true, if_true, upd] at hval
+  have hmax : max (lget d i + 1) (lget d (p i)) = lget d (p i) := by simpa using hval
+  have := le_max_left (lget d i + 1) (lget d (p i))
+  rw [hmax] at this
+  omega
+
+/-- the corrected loop stops only on such an unchanged sweep (or when its `V` sweeps are used up) -/
+theorem depthLoop_fixed_or_exhausted (V : Nat) (p : Nat → Nat) (n : Nat) (d : List Int) :
+    sweepL V p (depthLoop V p n d) = depthLoop V p n d ∨
+      depthLoop V p n d = (sweepL V p)^[n] d := by
+  induction n generalizing d with
+  | zero => right; rfl
+  | succ n ih =>
+    rw [depthLoop]
+    by_cases h : (sweepL V p d == d) = true
+    · left
+      have h' : sweepL V p d = d := by simpa using h
+      simp [h']
+    · simp only [h, Bool.false_eq_true, if_false]
+      rcases ih (sweepL V p d) with h1 | h1
+      · left; exact h1
+      · right; rw [h1, Function.iterate_succ_apply]
+
+/-- Clause "reordering preserves ancestry": for any order that is injective on the vertices
+    (every `argsort` result), the new parent of position `i` is the position of the old parent
+    of the vertex placed at `i`: `parents' ∘ order⁻¹ = order⁻¹ ∘ parents`. -/
+theorem reorder_preserves_ancestry (V : Nat) (p order : Nat → Nat)
+    (hinj : ∀ i < V, ∀ j < V, order i = order j → i = j)
+    (i k : Nat) (hi : i < V) (hk : k < V) (hpar : p (order i) = order k) :
+    (reorder V p order).getD i 0 = k := by
+  simp only [reorder, List.getD_eq_getElem?_getD, List.getElem?_map, List.getElem?_range hi,
+    Option.map_some, Option.getD_some, hpar]
+  exact inverseOrder_prefix order V hinj k hk
+
+/-- The *unpatched* stopping rule of `depth_from_leaves` (stop when the maximum did not
+    change) returns depths that do not increase from node 2 to its parent 0 on parents
+    (0,2,0,2,3); the corrected rule gives the heights. -/
+theorem depth_max_rule_not_strict :
+    let p : Nat → Nat := fnOf [0, 2, 0, 2, 3]
+    depthFromLeavesMax 5 p = [2, 0, 2, 1, 0] ∧ depthFromLeaves 5 p = [3, 0, 2, 1, 0] := by
+  decide +kernel
+
+/-! ## Non-vacuity -/
+
+/-- a valid symmetric graph with an isolated vertex satisfies the hypotheses -/
+example : (⟨4, [⟨0, 1, 1⟩, ⟨1, 0, 2⟩, ⟨1, 2, 1⟩, ⟨2, 1, 1⟩]⟩ : Graph).Valid ∧
+    (⟨4, [⟨0, 1, 1⟩, ⟨1, 0, 2⟩, ⟨1, 2, 1⟩, ⟨2, 1, 1⟩]⟩ : Graph).Symm := by
+  constructor
+  · intro e he; simp at he; rcases he with rfl | rfl | rfl | rfl <;> simp
+  · intro i j h
+    simp [Graph.adj] at h ⊢
+    omega
+
+/-- an accepted forest in range, and a refused cycle -/
+example : InRange 4 (fnOf [0, 0, 1, 3]) ∧ check 4 (fnOf [0, 0, 1, 3]) = true ∧
+    check 3 (fnOf [1, 2, 0]) = false := by
+  refine ⟨?_, by decide +kernel, by decide +kernel⟩
+  intro v hv
+  have : v = 0 ∨ v = 1 ∨ v = 2 ∨ v = 3 := by omega
+  rcases this with rfl | rfl | rfl | rfl <;> decide +kernel
 
 end NipyVerif.C12
